@@ -424,6 +424,8 @@ class YP(object):
         """clears all defined atoms, variables, facts and rules."""
         self._atom_store = {}
         self._predicates_store = {}
+        # the empty-list atom of the new atom table, so that atom('[]') is ATOM_NIL again
+        self.ATOM_NIL = self.atom("[]")
         self._set_default_eval_context()
         self._set_builtin_predicates()
 
